@@ -355,8 +355,9 @@ def _s6_map_columns_order(program, res):
 def _s7_record_transform_columns(program, res):
     """blocks -> row records: the declared result columns are blocks_in.row_columns (all value cells of the control table); the data-frame
     implementations build one column group per key level *observed in the data*, so each return has to lay the result out by row_columns"""
-    for (mod, cls) in (("pandas_base", "PandasModelBase"), ("polars_model", "PolarsModel")):
-        m = program.method(mod, cls, "blocks_to_rowrecs", inherited=False)
+    for (mod, cls, mname, field) in (("pandas_base", "PandasModelBase", "blocks_to_rowrecs", "row_columns"), ("polars_model", "PolarsModel", "blocks_to_rowrecs", "row_columns"),
+                                     ("pandas_base", "PandasModelBase", "rowrecs_to_blocks", "block_columns"), ("polars_model", "PolarsModel", "rowrecs_to_blocks", "block_columns")):
+        m = program.method(mod, cls, mname, inherited=False)
         res.analysed(m)
         spec = [p for p in m.params() if p not in ("self", "data")][0]
         g = cfgmod.build(m.node)
@@ -367,27 +368,89 @@ def _s7_record_transform_columns(program, res):
                 continue
             n += 1
             v = r.stmt.value
-            direct = f"{spec}.row_columns" in unparse(v)
+            direct = f"{spec}.{field}" in unparse(v)
             laid = False
             if isinstance(v, ast.Name):
                 # last assignment(s) to the returned name select / reindex by row_columns
                 for st in ast.walk(m.node):
-                    if isinstance(st, ast.Assign) and len(st.targets) == 1 and unparse(st.targets[0]) == v.id and f"{spec}.row_columns" in unparse(st.value) \
+                    if isinstance(st, ast.Assign) and len(st.targets) == 1 and unparse(st.targets[0]) == v.id and f"{spec}.{field}" in unparse(st.value) \
                             and g.has_node(st) and g.dominates(g.node_of(st).id, r.id) \
                             and not any(isinstance(o, ast.Assign) and unparse(o.targets[0]) == v.id and o is not st and g.has_node(o)
                                         and g.node_of(o).id in g.reachable_from(g.node_of(st).id) and r.id in g.reachable_from(g.node_of(o).id)
-                                        and f"{spec}.row_columns" not in unparse(o.value) and v.id not in {x.id for x in ast.walk(o.value) if isinstance(x, ast.Name)}
+                                        and f"{spec}.{field}" not in unparse(o.value) and v.id not in {x.id for x in ast.walk(o.value) if isinstance(x, ast.Name)}
                                         for o in ast.walk(m.node)):
                         laid = True
             if direct or laid:
-                res.ok("C08-S7", f"{cls}.blocks_to_rowrecs: a returned frame is laid out by {spec}.row_columns")
+                res.ok("C08-S7", f"{cls}.{mname}: a returned frame is laid out by {spec}.{field}")
             else:
-                res.fail_at("C08-S7", m, "row-record-columns-from-observed-keys",
-                            f"{cls}.blocks_to_rowrecs returns `{unparse(v)}`, whose columns are one group per key level present in the data: a control-table level that no row "
-                            f"carries is missing from the result (declared id,a,b → id,a), a level the control table does not know adds a column named nan/null; SQL returns "
-                            f"the declared columns with NULLs", r.stmt)
+                if mname == "blocks_to_rowrecs":
+                    res.fail_at("C08-S7", m, "row-record-columns-from-observed-keys",
+                                f"{cls}.blocks_to_rowrecs returns `{unparse(v)}`, whose columns are one group per key level present in the data, in the order the levels appear: a "
+                                f"control-table level that no row carries is missing from the result (declared id,a,b → id,a), a level the control table does not know adds a column "
+                                f"named nan/null, and the column order follows the data (declared id,p,q,r,s → id,q,s,p,r); SQL returns the declared columns with NULLs", r.stmt)
+                else:
+                    res.fail_at("C08-S7", m, "block-record-columns-keys-first",
+                                f"{cls}.rowrecs_to_blocks returns `{unparse(v)}`: record keys, control keys, then the value columns — the declared order is the control table's "
+                                f"own column order (control table v1,key,v2: declared id,v1,key,v2, returned id,key,v1,v2)", r.stmt)
         if n < 2:
-            raise AnalysisError(f"{cls}.blocks_to_rowrecs: expected the empty-input return and the main return")
+            raise AnalysisError(f"{cls}.{mname}: expected the empty-input return and the main return")
+
+
+
+def _s7b_sql_record_columns(program, res):
+    """the SQL generators of the record conversions list their select terms in the declared order: blocks -> rows walks the control table the way
+    RecordSpecification builds content_keys (column by column); rows -> blocks lists the record keys and then the control table's columns as they stand"""
+    spec = program.method("cdata", "RecordSpecification", "__init__", inherited=False)
+
+    def nesting(fn_node, sink_test):
+        """for the innermost statement satisfying sink_test: 'rows' / 'cols' per enclosing for loop, outermost first"""
+        out = None
+
+        def walk(stmts, stack):
+            nonlocal out
+            for st in stmts:
+                if isinstance(st, ast.For):
+                    it = unparse(st.iter)
+                    kind = "rows" if ("range(" in it and ("shape[0]" in it or "len(" in it)) else ("cols" if ("columns" in it or "_cols" in it) else "?")
+                    walk(st.body, stack + [kind])
+                    walk(st.orelse, stack)
+                elif isinstance(st, (ast.If, ast.With, ast.Try)):
+                    for fld in ("body", "orelse", "finalbody"):
+                        walk(getattr(st, fld, []) or [], stack)
+                elif sink_test(st) and len(stack) >= 2 and out is None:
+                    out = [k for k in stack if k != "?"]
+        walk(fn_node.body, [])
+        return out
+
+    decl = nesting(spec.node, lambda st: isinstance(st, ast.Expr) and isinstance(st.value, ast.Call) and unparse(st.value.func).endswith(".append") and "cvs" in unparse(st.value.func))
+    if decl is None:
+        raise AnalysisError("RecordSpecification.__init__: the nested walk of the control table that builds content_keys was not found")
+    m = program.method("sql_model", "SQLModel", "blocks_to_row_recs_query_str_list_pair", inherited=False)
+    res.analysed(m, spec)
+    got = nesting(m.node, lambda st: isinstance(st, ast.Expr) and isinstance(st.value, ast.Call) and unparse(st.value.func) == "col_stmts.append")
+    if got is None:
+        raise AnalysisError("blocks_to_row_recs_query_str_list_pair: the nested walk of the control table was not found")
+    if got == decl:
+        res.ok("C08-S7", f"SQL blocks -> rows walks the control table {' then '.join(decl)}, as RecordSpecification.content_keys does")
+    else:
+        res.fail_at("C08-S7", m, "sql-row-record-column-order",
+                    f"the SQL generator walks the control table {' then '.join(got)}; the declared row-record columns (content_keys) walk it {' then '.join(decl)}: control "
+                    f"(part; m1: p_m1,q_m1; m2: p_m2,q_m2) declares id,p_m1,q_m1,p_m2,q_m2 and SQLite returns id,p_m1,p_m2,q_m1,q_m2 (a raw step ignores the columns asked of it)")
+    m2 = program.method("sql_model", "SQLModel", "row_recs_to_blocks_query_str_list_pair", inherited=False)
+    res.analysed(m2)
+    loops = []
+    for st in m2.node.body:
+        if isinstance(st, ast.For) and any(isinstance(c, ast.Call) and unparse(c.func) == "col_stmts.append" for c in ast.walk(st)):
+            loops.append(unparse(st.iter))
+    if len(loops) < 2:
+        raise AnalysisError("row_recs_to_blocks_query_str_list_pair: the loops that build the select list were not found")
+    keys_apart = [l for l in loops if l.endswith("control_table_keys")]
+    if loops[0].endswith("record_keys") and not keys_apart and any(l.endswith(".columns") for l in loops[1:]):
+        res.ok("C08-S7", "SQL rows -> blocks lists the record keys and then the control table's columns in their own order")
+    else:
+        res.fail_at("C08-S7", m2, "sql-block-record-column-order",
+                    f"the select list is built by loops over {loops}: control keys are listed before the value columns whatever the control table's column order — control "
+                    f"table (v1,key,v2) declares id,v1,key,v2 and SQLite returns id,key,v1,v2")
 
 
 def _s4c_union_raw_operands(program, res):
@@ -472,6 +535,51 @@ def _s5_declared_order(program, res):
                     "return another column order than the declared one (project on an empty input: declared z,y,s, returned s,y,z)")
 
 
+# a refusal of the empty request that cannot be reached, with the reason (one named method each)
+EMPTY_REQUEST_REFUSAL_UNREACHABLE = {
+    "extend_to_near_sql": "reached only with a non-empty `subops`, whose keys were taken from `using`",
+}
+
+
+def _s8_empty_request(program, res, rule="C08-S8"):
+    """a consumer that reads no column of its source (project({'n': '_size()'}), a constant extend that is then the only column selected) asks the
+    source step for the empty column set; every executor evaluates that, so a step's translation may not refuse it"""
+    sm = program.cls("sql_model", "SQLModel")
+    n = 0
+    for m in sm.methods.values():
+        params = {a.arg for a in m.node.args.args + m.node.args.kwonlyargs}
+        if "using" not in params:
+            continue
+        n += 1
+        res.analysed(m)
+        g = cfgmod.build(m.node)
+        bad = None
+        for node in g.stmt_nodes(("raise",)):
+            for b, lab in g.lexical_guards(node):
+                c = b.cond
+                txt = unparse(c).replace(" ", "")
+                if lab is True and isinstance(c, ast.Compare) and txt.startswith("len(using)") and _empty_test(c):
+                    bad = node.stmt
+        if bad is None:
+            res.ok(rule, f"{m.name}: the empty request is not refused")
+        elif m.name in EMPTY_REQUEST_REFUSAL_UNREACHABLE:
+            res.ok(rule, f"{m.name}: refusal of the empty request is unreachable — {EMPTY_REQUEST_REFUSAL_UNREACHABLE[m.name]}")
+        else:
+            res.fail_at(rule, m, f"empty-request-refused:{m.name}",
+                        f"{m.name} raises when no column is requested of it: t.natural_join(t, on=['g']).project({{'n': '_size()'}}) and "
+                        f"t.concat_rows(t).project({{'n': '_size()'}}) run on Pandas / Polars ([[5]], [[6]]) and to_sql raises ValueError", bad)
+    res.expect_count(rule, "SQLModel methods taking `using`", n, 10)
+
+
+def _empty_test(c: ast.Compare) -> bool:
+    """len(x) < 1, len(x) <= 0, len(x) == 0"""
+    if len(c.ops) != 1 or not isinstance(c.comparators[0], ast.Constant):
+        return False
+    k = c.comparators[0].value
+    op = c.ops[0]
+    return (isinstance(op, ast.Lt) and k == 1) or (isinstance(op, ast.LtE) and k == 0) or (isinstance(op, ast.Eq) and k == 0)
+
+
 def run(program, res, tier):
     res.rule("C08-S1", "Pandas: every scratch column written into a returned frame is removed on every path")
     res.rule("C08-S2", "Polars: temporary columns are selected away; steps end in select(op.columns_produced())")
@@ -487,5 +595,8 @@ def run(program, res, tier):
     _s5_declared_order(program, res)
     res.rule("C08-S6", "map_columns: deletions are applied to the input columns, before renaming")
     _s6_map_columns_order(program, res)
-    res.rule("C08-S7", "blocks_to_rowrecs returns the declared row-record columns whatever key levels the data holds")
+    res.rule("C08-S7", "record conversions return the declared columns in the declared order, whatever key levels the data holds (Pandas, Polars, SQL)")
     _s7_record_transform_columns(program, res)
+    _s7b_sql_record_columns(program, res)
+    res.rule("C08-S8", "SQL: a step asked for no column (only its rows are needed) is translated, not refused")
+    _s8_empty_request(program, res)
